@@ -2,9 +2,9 @@ SPECIFICATION Spec
 CONSTANTS
   MaxSeq = 5
   MaxCrash = 2
-  Guard = TRUE
+  Guard = FALSE
   Tiny = FALSE
-  Queued = FALSE
-INVARIANTS ReadableWhileUp Recoverable NextAbove GuardSound
+  Queued = TRUE
+INVARIANTS Recoverable
 CHECK_DEADLOCK FALSE
 CONSTRAINT Bound
